@@ -169,4 +169,182 @@ theorem foldl_box_two (pos : List Nat → Nat) (w : Int → Int → Nat) (e : T)
   rw [List.mem_range'_1] at hy
   exact ⟨hy.1, by omega⟩
 
+
+/-! ## Three levels: the blanking loop of `WrappableGrid<T,3>::translate`
+
+`odo3` is the shape the translator gives the same loop for DIM = 3 (the inner `for (a < DIM)` unrolled three times): write the cell,
+increment `cellIndexes[0]`; on reaching its end reset it and carry into `cellIndexes[1]`; on reaching that end reset it and carry into
+`cellIndexes[2]`; when that reaches its end too, reset it and set `done`. `odo3_box` is the same statement as `odo_box` for a non-empty
+box `[f0, l0) × [f1, l1) × [f2, l2)`: with fuel ≥ (number of cells of the box) + 1 the loop ends with the buffer = the fold of
+`set (w x y z) e` plane by plane (`z`), row by row (`y`), cell by cell (`x`) — the order of the model's `box` of three ranges
+(`box_three`, `foldl_box_three`). -/
+
+/-- the translated blanking loop for three axes, generic in the position function and the ranges -/
+def odo3 (w : Int → Int → Int → Nat) (e : T) (f0 l0 f1 l1 f2 l2 : Int) :
+    Nat → List T → Int → Int → Int → Bool → Option (List T × Int × Int × Int × Bool)
+  | 0, _, _, _, _, _ => none
+  | fuel + 1, buf, x0, x1, x2, done =>
+    if ¬ (done = true) then
+      if (x0 + 1) % 18446744073709551616 < l0 then
+        odo3 w e f0 l0 f1 l1 f2 l2 fuel (buf.set (w x0 x1 x2) e) ((x0 + 1) % 18446744073709551616) x1 x2 false
+      else if (x1 + 1) % 18446744073709551616 < l1 then
+        odo3 w e f0 l0 f1 l1 f2 l2 fuel (buf.set (w x0 x1 x2) e) f0 ((x1 + 1) % 18446744073709551616) x2 false
+      else if (x2 + 1) % 18446744073709551616 < l2 then
+        odo3 w e f0 l0 f1 l1 f2 l2 fuel (buf.set (w x0 x1 x2) e) f0 f1 ((x2 + 1) % 18446744073709551616) false
+      else
+        odo3 w e f0 l0 f1 l1 f2 l2 fuel (buf.set (w x0 x1 x2) e) f0 f1 f2 true
+    else some (buf, x0, x1, x2, done)
+
+/-- blanking of the cells `x0 … x0+k-1` of the row `(y, z)` -/
+def rowFold3 (w : Int → Int → Int → Nat) (e : T) (y z : Nat) (x0 k : Nat) (buf : List T) : List T :=
+  (List.range' x0 k).foldl (fun b (x : Nat) => b.set (w (x : Int) (y : Int) (z : Int)) e) buf
+
+/-- blanking of the rows `y0 … y0+j-1` of the plane `z`, each over `[f0, f0+k)` -/
+def planeFold3 (w : Int → Int → Int → Nat) (e : T) (f0 k : Nat) (z : Nat) (y0 j : Nat) (buf : List T) : List T :=
+  (List.range' y0 j).foldl (fun b (y : Nat) => rowFold3 w e y z f0 k b) buf
+
+/-- blanking of the planes `z0 … z0+i-1`, each over `[f0, f0+k) × [f1, f1+j)` -/
+def planesFold3 (w : Int → Int → Int → Nat) (e : T) (f0 k f1 j : Nat) (z0 i : Nat) (buf : List T) : List T :=
+  (List.range' z0 i).foldl (fun b (z : Nat) => planeFold3 w e f0 k z f1 j b) buf
+
+theorem odo3_done (w : Int → Int → Int → Nat) (e : T) (f0 l0 f1 l1 f2 l2 : Int) (m : Nat) (buf : List T) (x0 x1 x2 : Int) :
+    odo3 w e f0 l0 f1 l1 f2 l2 (m + 1) buf x0 x1 x2 true = some (buf, x0, x1, x2, true) := by
+  unfold odo3
+  simp
+
+theorem odo3_step (w : Int → Int → Int → Nat) (e : T) (f0 l0 f1 l1 f2 l2 : Int) (m : Nat) (buf : List T) (x0 x1 x2 : Int) :
+    odo3 w e f0 l0 f1 l1 f2 l2 (m + 1) buf x0 x1 x2 false =
+      if (x0 + 1) % 18446744073709551616 < l0 then
+        odo3 w e f0 l0 f1 l1 f2 l2 m (buf.set (w x0 x1 x2) e) ((x0 + 1) % 18446744073709551616) x1 x2 false
+      else if (x1 + 1) % 18446744073709551616 < l1 then
+        odo3 w e f0 l0 f1 l1 f2 l2 m (buf.set (w x0 x1 x2) e) f0 ((x1 + 1) % 18446744073709551616) x2 false
+      else if (x2 + 1) % 18446744073709551616 < l2 then
+        odo3 w e f0 l0 f1 l1 f2 l2 m (buf.set (w x0 x1 x2) e) f0 f1 ((x2 + 1) % 18446744073709551616) false
+      else
+        odo3 w e f0 l0 f1 l1 f2 l2 m (buf.set (w x0 x1 x2) e) f0 f1 f2 true := by
+  rw [odo3]
+  simp only [Bool.false_eq_true, not_false_eq_true, if_true]
+
+/-- one row: from `(x0, y, z)` with `k + 1` cells left in the row the loop writes them and then carries -/
+theorem odo3_row (w : Int → Int → Int → Nat) (e : T) (f0 l0 f1 l1 f2 l2 : Nat) (hl0 : l0 < 18446744073709551616) (y z : Nat) (k : Nat) :
+    ∀ (x0 : Nat) (buf : List T) (m : Nat), x0 + (k + 1) = l0 →
+      odo3 w e f0 l0 f1 l1 f2 l2 (m + (k + 1)) buf x0 y z false =
+        if ((y : Int) + 1) % 18446744073709551616 < (l1 : Int) then
+          odo3 w e f0 l0 f1 l1 f2 l2 m (rowFold3 w e y z x0 (k + 1) buf) f0 (((y : Int) + 1) % 18446744073709551616) z false
+        else if ((z : Int) + 1) % 18446744073709551616 < (l2 : Int) then
+          odo3 w e f0 l0 f1 l1 f2 l2 m (rowFold3 w e y z x0 (k + 1) buf) f0 f1 (((z : Int) + 1) % 18446744073709551616) false
+        else
+          odo3 w e f0 l0 f1 l1 f2 l2 m (rowFold3 w e y z x0 (k + 1) buf) f0 f1 f2 true := by
+  induction k with
+  | zero =>
+    intro x0 buf m hx
+    have hc : ¬ (((x0 : Int) + 1) % 18446744073709551616 < (l0 : Int)) := by omega
+    show odo3 w e f0 l0 f1 l1 f2 l2 (m + 1) buf x0 y z false = _
+    rw [odo3_step, if_neg hc]
+    simp only [rowFold3, Nat.zero_add, List.range'_one, List.foldl_cons, List.foldl_nil]
+  | succ k ih =>
+    intro x0 buf m hx
+    have hc : ((x0 : Int) + 1) % 18446744073709551616 < (l0 : Int) := by omega
+    show odo3 w e f0 l0 f1 l1 f2 l2 ((m + (k + 1)) + 1) buf x0 y z false = _
+    rw [odo3_step, if_pos hc]
+    rw [succ_cast x0 (by omega), ih (x0 + 1) _ m (by omega)]
+    have hr : ∀ b : List T, rowFold3 w e y z x0 (k + 1 + 1) b = rowFold3 w e y z (x0 + 1) (k + 1) (b.set (w (x0 : Int) (y : Int) (z : Int)) e) := by
+      intro b
+      simp only [rowFold3]
+      rw [List.range'_succ, List.foldl_cons]
+    rw [hr]
+
+/-- one plane: from `(f0, y, z)` with `j + 1` rows left in the plane the loop writes them and then carries into the next plane -/
+theorem odo3_plane (w : Int → Int → Int → Nat) (e : T) (f0 l0 f1 l1 f2 l2 : Nat) (hl0 : l0 < 18446744073709551616)
+    (hl1 : l1 < 18446744073709551616) (z : Nat) (k : Nat) (hk : f0 + (k + 1) = l0) (j : Nat) :
+    ∀ (y : Nat) (buf : List T) (m : Nat), y + (j + 1) = l1 →
+      odo3 w e f0 l0 f1 l1 f2 l2 (m + (j + 1) * (k + 1)) buf f0 y z false =
+        if ((z : Int) + 1) % 18446744073709551616 < (l2 : Int) then
+          odo3 w e f0 l0 f1 l1 f2 l2 m (planeFold3 w e f0 (k + 1) z y (j + 1) buf) f0 f1 (((z : Int) + 1) % 18446744073709551616) false
+        else
+          odo3 w e f0 l0 f1 l1 f2 l2 m (planeFold3 w e f0 (k + 1) z y (j + 1) buf) f0 f1 f2 true := by
+  induction j with
+  | zero =>
+    intro y buf m hy
+    have hc : ¬ (((y : Int) + 1) % 18446744073709551616 < (l1 : Int)) := by omega
+    rw [Nat.zero_add, Nat.one_mul, odo3_row w e f0 l0 f1 l1 f2 l2 hl0 y z k f0 buf m hk, if_neg hc]
+    simp only [planeFold3, List.range'_one, List.foldl_cons, List.foldl_nil]
+  | succ j ih =>
+    intro y buf m hy
+    have hc : ((y : Int) + 1) % 18446744073709551616 < (l1 : Int) := by omega
+    have hfuel : m + (j + 1 + 1) * (k + 1) = (m + (j + 1) * (k + 1)) + (k + 1) := by
+      rw [Nat.succ_mul (j + 1) (k + 1)]; omega
+    rw [hfuel, odo3_row w e f0 l0 f1 l1 f2 l2 hl0 y z k f0 buf _ hk, if_pos hc, succ_cast y (by omega), ih (y + 1) _ m (by omega)]
+    have hr : planeFold3 w e f0 (k + 1) z y (j + 1 + 1) buf = planeFold3 w e f0 (k + 1) z (y + 1) (j + 1) (rowFold3 w e y z f0 (k + 1) buf) := by
+      simp only [planeFold3]
+      rw [List.range'_succ, List.foldl_cons]
+    rw [hr]
+
+/-- all planes from `z` on: `i + 1` planes are left, every one starts at `(f0, f1)` -/
+theorem odo3_planes (w : Int → Int → Int → Nat) (e : T) (f0 l0 f1 l1 f2 l2 : Nat) (hl0 : l0 < 18446744073709551616)
+    (hl1 : l1 < 18446744073709551616) (hl2 : l2 < 18446744073709551616) (k : Nat) (hk : f0 + (k + 1) = l0) (j : Nat)
+    (hj : f1 + (j + 1) = l1) (i : Nat) :
+    ∀ (z : Nat) (buf : List T) (m : Nat), z + (i + 1) = l2 →
+      odo3 w e f0 l0 f1 l1 f2 l2 (m + 1 + (i + 1) * ((j + 1) * (k + 1))) buf f0 f1 z false =
+        some (planesFold3 w e f0 (k + 1) f1 (j + 1) z (i + 1) buf, (f0 : Int), (f1 : Int), (f2 : Int), true) := by
+  induction i with
+  | zero =>
+    intro z buf m hz
+    have hc : ¬ (((z : Int) + 1) % 18446744073709551616 < (l2 : Int)) := by omega
+    rw [Nat.zero_add, Nat.one_mul, odo3_plane w e f0 l0 f1 l1 f2 l2 hl0 hl1 z k hk j f1 buf (m + 1) hj, if_neg hc, odo3_done]
+    simp only [planesFold3, List.range'_one, List.foldl_cons, List.foldl_nil]
+  | succ i ih =>
+    intro z buf m hz
+    have hc : ((z : Int) + 1) % 18446744073709551616 < (l2 : Int) := by omega
+    have hfuel : m + 1 + (i + 1 + 1) * ((j + 1) * (k + 1)) = (m + 1 + (i + 1) * ((j + 1) * (k + 1))) + (j + 1) * (k + 1) := by
+      rw [Nat.succ_mul (i + 1) ((j + 1) * (k + 1))]; omega
+    rw [hfuel, odo3_plane w e f0 l0 f1 l1 f2 l2 hl0 hl1 z k hk j f1 buf _ hj, if_pos hc, succ_cast z (by omega), ih (z + 1) _ m (by omega)]
+    have hr : planesFold3 w e f0 (k + 1) f1 (j + 1) z (i + 1 + 1) buf
+        = planesFold3 w e f0 (k + 1) f1 (j + 1) (z + 1) (i + 1) (planeFold3 w e f0 (k + 1) z f1 (j + 1) buf) := by
+      simp only [planesFold3]
+      rw [List.range'_succ, List.foldl_cons]
+    rw [hr]
+
+/-- **The odometer induction, three levels.** On a non-empty box `[f0, l0) × [f1, l1) × [f2, l2)` with ends below 2^64, started at its
+    begin corner with `done = false` and fuel at least (number of cells of the box) + 1, the translated loop returns `some`: the buffer
+    with exactly the box's cells written (plane by plane, row by row, axis 0 fastest), the indexes back at the begin corner, `done` -/
+theorem odo3_box (w : Int → Int → Int → Nat) (e : T) (f0 l0 f1 l1 f2 l2 : Nat) (hl0 : l0 < 18446744073709551616)
+    (hl1 : l1 < 18446744073709551616) (hl2 : l2 < 18446744073709551616) (h0 : f0 < l0) (h1 : f1 < l1) (h2 : f2 < l2)
+    (buf : List T) (fuel : Nat) (hfuel : (l2 - f2) * ((l1 - f1) * (l0 - f0)) + 1 ≤ fuel) :
+    odo3 w e f0 l0 f1 l1 f2 l2 fuel buf f0 f1 f2 false =
+      some (planesFold3 w e f0 (l0 - f0) f1 (l1 - f1) f2 (l2 - f2) buf, (f0 : Int), (f1 : Int), (f2 : Int), true) := by
+  obtain ⟨k, hk⟩ : ∃ k, l0 - f0 = k + 1 := ⟨l0 - f0 - 1, by omega⟩
+  obtain ⟨j, hj⟩ : ∃ j, l1 - f1 = j + 1 := ⟨l1 - f1 - 1, by omega⟩
+  obtain ⟨i, hi⟩ : ∃ i, l2 - f2 = i + 1 := ⟨l2 - f2 - 1, by omega⟩
+  rw [hk, hj, hi] at hfuel ⊢
+  obtain ⟨m, hm⟩ : ∃ m, fuel = m + 1 + (i + 1) * ((j + 1) * (k + 1)) := ⟨fuel - 1 - (i + 1) * ((j + 1) * (k + 1)), by omega⟩
+  rw [hm]
+  exact odo3_planes w e f0 l0 f1 l1 f2 l2 hl0 hl1 hl2 k (by omega) j (by omega) i f2 buf m (by omega)
+
+/-! ### the model's `box` of three ranges in the same form -/
+
+theorem box_three (f0 l0 f1 l1 f2 l2 : Nat) :
+    box [(f0, l0), (f1, l1), (f2, l2)] =
+      (List.range' f2 (l2 - f2)).flatMap (fun z => (List.range' f1 (l1 - f1)).flatMap (fun y =>
+        (List.range' f0 (l0 - f0)).map (fun x => [x, y, z]))) := by
+  simp only [box, List.flatMap_cons, List.flatMap_nil, List.append_nil, List.flatMap_map, List.flatMap_assoc]
+
+/-- the model's blanking fold over a three-axis box is the plane-by-plane fold of `odo3_box`, for every position function `w` that
+    agrees with the model's `pos` on the cells of the box -/
+theorem foldl_box_three (pos : List Nat → Nat) (w : Int → Int → Int → Nat) (e : T) (f0 l0 f1 l1 f2 l2 : Nat)
+    (hw : ∀ x y z : Nat, f0 ≤ x → x < l0 → f1 ≤ y → y < l1 → f2 ≤ z → z < l2 → w (x : Int) (y : Int) (z : Int) = pos [x, y, z])
+    (buf : List T) :
+    (box [(f0, l0), (f1, l1), (f2, l2)]).foldl (fun b c => b.set (pos c) e) buf
+      = planesFold3 w e f0 (l0 - f0) f1 (l1 - f1) f2 (l2 - f2) buf := by
+  have hcongr := foldl_set_congr pos (fun c : List Nat => w ((c.getD 0 0 : Nat) : Int) ((c.getD 1 0 : Nat) : Int) ((c.getD 2 0 : Nat) : Int)) e
+    (box [(f0, l0), (f1, l1), (f2, l2)]) (by
+      intro c hc
+      rw [box_three] at hc
+      simp only [List.mem_flatMap, List.mem_map, List.mem_range'_1] at hc
+      obtain ⟨z, hz, y, hy, x, hx, rfl⟩ := hc
+      simp only [List.getD_cons_zero, List.getD_cons_succ]
+      exact (hw x y z hx.1 (by omega) hy.1 (by omega) hz.1 (by omega)).symm) buf
+  rw [hcongr, box_three, List.foldl_flatMap]
+  simp only [List.foldl_flatMap, List.foldl_map, List.getD_cons_zero, List.getD_cons_succ, planesFold3, planeFold3, rowFold3]
+
 end Romea.C15Odometer
